@@ -11,13 +11,16 @@ namespace Subset
 
 /-! ## A. codecs -/
 
-/-- the writer's length prefix: one byte below 128, else two (high bit set on the first) -/
-def encLen (n : Nat) : Bytes := if n < 128 then [n] else [128 + n / 256, n % 256]
+/-- the writer's length prefix (`dic/build/primitives.rs: write_len`): one byte below 127, else two
+(high bit set on the first).  The reader (`string_length_parser`) switches at 128, so 127 is the one
+length with two encodings the reader accepts: `[127]` and the writer's `[128, 127]`
+(`stringLength_short_127`). -/
+def encLen (n : Nat) : Bytes := if n < 127 then [n] else [128 + n / 256, n % 256]
 
 theorem stringLength_encLen {n : Nat} (h : n < 32768) (rest : Bytes) :
     stringLength (encLen n ++ rest) = .ok (n, rest) := by
   unfold encLen
-  by_cases h1 : n < 128
+  by_cases h1 : n < 127
   · have h2 : ¬ n ≥ 128 := by omega
     simp [h1, stringLength, leU8, h2]
   · have hq : n / 256 < 128 := by omega
@@ -228,6 +231,126 @@ theorem skipArray_encArr {a : List Nat} (_h : ArrOk a) (rest : Bytes) : skipArra
   simp only [skipArray, encArr, List.cons_append, leU8, hnot, if_false]
   rw [← hl, List.drop_left']
   rfl
+
+/-! ### skipping = parsing and dropping the value, on EVERY input -/
+
+/-- the one-byte form of a length below 128 is read back as it is (127 included, which the writer never
+emits in this form) -/
+theorem stringLength_short {n : Nat} (h : n < 128) (rest : Bytes) : stringLength (n :: rest) = .ok (n, rest) := by
+  have h2 : ¬ n ≥ 128 := by omega
+  simp [stringLength, leU8, h2]
+
+theorem utf16String_ok_skip {bs : Bytes} {s : List Nat} {r : Bytes} (h : utf16String bs = .ok (s, r)) :
+    skipU16String bs = .ok r := by
+  unfold utf16String at h
+  unfold skipU16String
+  cases hd : utf16Data bs with
+  | err => rw [hd] at h; cases h
+  | panic => rw [hd] at h; cases h
+  | ok p =>
+    obtain ⟨data, rest⟩ := p
+    rw [hd] at h
+    simp only [] at h ⊢
+    by_cases he : data.isEmpty = true
+    · simp only [he, if_true] at h
+      cases h; rfl
+    · simp only [he] at h
+      cases hc : codeUnits data with
+      | none => rw [hc] at h; cases h
+      | some us =>
+        rw [hc] at h
+        simp only [] at h
+        cases hu : decodeUtf16 us with
+        | none => rw [hu] at h; cases h
+        | some s' => rw [hu] at h; cases h; rfl
+
+theorem countU32_ok : ∀ (n : Nat) (bs : Bytes) (vs : List Nat) (r : Bytes), countU32 n bs = .ok (vs, r) →
+    ¬ bs.length < n * 4 ∧ r = bs.drop (n * 4) := by
+  intro n
+  induction n with
+  | zero => intro bs vs r h; simp [countU32] at h; simp [h.2]
+  | succ n ih =>
+    intro bs vs r h
+    unfold countU32 at h
+    match bs, h with
+    | b0 :: b1 :: b2 :: b3 :: rest, h =>
+      simp only [leU32] at h
+      cases hc : countU32 n rest with
+      | err => rw [hc] at h; cases h
+      | panic => rw [hc] at h; cases h
+      | ok p =>
+        obtain ⟨vs', r'⟩ := p
+        rw [hc] at h
+        simp only [Res.ok.injEq, Prod.mk.injEq] at h
+        obtain ⟨hl, hr⟩ := ih rest vs' r' hc
+        refine ⟨by simp only [List.length_cons]; omega, ?_⟩
+        rw [← h.2, hr]
+        have : (n + 1) * 4 = n * 4 + 4 := by omega
+        rw [this]
+        simp [List.drop_succ_cons]
+    | [], h => simp [leU32] at h
+    | [_], h => simp [leU32] at h
+    | [_, _], h => simp [leU32] at h
+    | [_, _, _], h => simp [leU32] at h
+
+theorem u32Array_ok_skip {bs : Bytes} {a : List Nat} {r : Bytes} (h : u32Array bs = .ok (a, r)) :
+    skipArray bs = .ok r := by
+  unfold u32Array at h
+  unfold skipArray
+  cases bs with
+  | nil => simp [leU8] at h
+  | cons len rest =>
+    simp only [leU8] at h ⊢
+    obtain ⟨hl, hr⟩ := countU32_ok len rest a r h
+    simp only [hl, if_false, hr]
+
+theorem assign_ok {α : Type} {p : Bytes → Res (α × Bytes)} {set : WordInfoData → α → WordInfoData} {bs : Bytes}
+    {upd : WordInfoData → WordInfoData} {next : Bytes} (h : assign p set bs = .ok (upd, next)) :
+    ∃ v, p bs = .ok (v, next) := by
+  unfold assign at h
+  cases hp : p bs with
+  | err => rw [hp] at h; cases h
+  | panic => rw [hp] at h; cases h
+  | ok q =>
+    obtain ⟨v, n⟩ := q
+    rw [hp] at h
+    simp only [Res.ok.injEq, Prod.mk.injEq] at h
+    exact ⟨v, by rw [h.2]⟩
+
+theorem forget_of_ok {α : Type} {p : Bytes → Res (α × Bytes)} {bs : Bytes} {v : α} {next : Bytes}
+    (h : p bs = .ok (v, next)) : forget p bs = .ok next := by
+  unfold forget; rw [h]
+
+theorem toUtf16_replicate (n : Nat) : toUtf16 (List.replicate n 97) = List.replicate n 97 := by
+  induction n with
+  | zero => rfl
+  | succ n ih => rw [List.replicate_succ, toUtf16_cons_bmp _ (by omega), ih]
+
+/-- `a` repeated `n` times is a representable string for every length the format allows -/
+theorem strOk_replicate (n : Nat) (h : n < 32768) : StrOk (List.replicate n 97) := by
+  refine ⟨?_, by rw [toUtf16_replicate]; simpa using h⟩
+  intro c hc
+  have := List.eq_of_mem_replicate hc
+  subst this
+  left; omega
+
+theorem arrOk_replicate (n : Nat) (h : n < 256) : ArrOk (List.replicate n 7) := by
+  refine ⟨by simpa using h, ?_⟩
+  intro v hv
+  have := List.eq_of_mem_replicate hv
+  subst this
+  omega
+
+theorem length_encStr (s : List Nat) :
+    (encStr s).length = (if (toUtf16 s).length < 127 then 1 else 2) + 2 * (toUtf16 s).length := by
+  unfold encStr encLen
+  rw [List.length_append, length_encUnits]
+  split <;> simp <;> omega
+
+theorem length_encArr (a : List Nat) : (encArr a).length = 1 + 4 * a.length := by
+  unfold encArr
+  rw [List.length_cons, length_encBody]
+  omega
 
 /-! ## B. the `parse_field!` scheme, generically -/
 
